@@ -8,6 +8,7 @@ import (
 	"net/http"
 	"net/http/httputil"
 	"net/url"
+	"time"
 
 	"github.com/pkg/errors"
 	"github.com/yandex/pandora/lib/netutil"
@@ -50,6 +51,7 @@ func newConnectClient(conf ClientConfig, target string) Client {
 			target,
 			conf.ConnectSSL,
 			NewDialer(conf.Dialer),
+			conf.Dialer.Timeout,
 		),
 		target)
 	return NewRedirectingClient(transport, conf.Redirect)
@@ -57,7 +59,7 @@ func newConnectClient(conf ClientConfig, target string) Client {
 
 var _ ClientConstructor = newConnectClient
 
-func newConnectDialFunc(target string, connectSSL bool, dialer netutil.Dialer) netutil.DialerFunc {
+func newConnectDialFunc(target string, connectSSL bool, dialer netutil.Dialer, timeout time.Duration) netutil.DialerFunc {
 	return func(ctx context.Context, network, address string) (conn net.Conn, err error) {
 		// TODO(skipor): make connect sample.
 		// TODO(skipor): make httptrace callbacks called correctly.
@@ -77,6 +79,16 @@ func newConnectDialFunc(target string, connectSSL bool, dialer netutil.Dialer) n
 		}
 		if connectSSL {
 			conn = tls.Client(conn, &tls.Config{InsecureSkipVerify: true})
+		}
+		if timeout > 0 {
+			// CONNECT exchange is a part of the dial: proxy that accepts connection and never answers
+			// should not block it longer than the dial timeout.
+			_ = conn.SetDeadline(time.Now().Add(timeout))
+			defer func() {
+				if err == nil {
+					_ = conn.SetDeadline(time.Time{})
+				}
+			}()
 		}
 		req := &http.Request{
 			Method:     "CONNECT",
